@@ -258,7 +258,11 @@ register('C06',
          'injection through before_cursor_execute at statement boundaries of a chosen transaction (quick: first, last, 4 random; '
          'thorough: every boundary), comparing all tables and the manager maps after the rollback with the state before, and the final '
          'tables with the run from which the failed transaction is deleted; savepoint histories (rollback / release / rollback of the '
-         'connection from outside / close with an open savepoint / a flush FAILING inside the savepoint after a versioned INSERT went through / Core statements on the association table inside the savepoint, begun after a relationship-only flush or a hand-made record) over several classes, all tables compared after every event; per database transaction exactly one record carries all rows written (one_tx) and the association versions replay to the live links (links_replay).',
+         'connection from outside / close with an open savepoint / a flush FAILING inside the savepoint after a versioned INSERT went through / Core statements on the association table inside the savepoint, begun after a relationship-only flush or a hand-made record) over several classes, all tables compared after every event; per database transaction exactly one record carries all rows written (one_tx) and the association versions replay to the live links (links_replay).'
+         ' The manager\'s side of a savepoint rollback (session_unit_of_work, rollback_savepoint) is regenerated from manager.py on every build '
+         '(harness/pytrans_sp.py, Gen/ManagerSpGen.v) and proved equal to the model; in any interleaving of independent sessions every session is the '
+         'single-session savepoint machine (C06_every_session_is_the_savepoint_machine). Savepoint histories include two levels, released inner '
+         'savepoints under a rolled back outer one, a transaction record created inside the savepoint, and a bystander session opening savepoints.',
          COMMON_NOTE + 'Process death (torn files) is the database journal\'s business and cannot be exhibited by the model (atomic database by '
          'assumption). The injected failure is an exception raised before the statement is sent.',
          'Coq proof (state equality + determinism of the step function) + fault enumeration at statement boundaries + vm_compute replay',
